@@ -20,6 +20,7 @@
   (`wait`) and roles (`repl`), which are parameters of the initial state.
 -/
 import SH.Lemmas.Engine
+import SH.Lemmas.EngineChain
 
 namespace SH.Engine
 
@@ -344,15 +345,6 @@ theorem crash_keeps_durable_events (w r : Bool) (l : List (Bool × Nat × Nat)) 
     have := mem_upTo.1 hr
     exact mem_evIds.2 ⟨rec, mem_crash_allRecs h0 d rec this.1 this.2, e1, e2⟩
 
-/-
-  Full statement (not proved in closed form):
-    theorem restart_catches_up (ops) (d) (plan) : dur ≤ d ≤ len →
-      (run (crashStep (run s0 ops) d) (replay plan ++ [.commit d, .ready])).tx.rows = evsUpTo (allRecs (run s0 ops)) d
-  i.e. the reader's replay always reaches the end. What is missing: that the reader's bookkeeping guard `readerOK`
-  holds at every delivery, which needs contiguity of the record offsets (r.eo = previous eo + r.ln) as a further
-  invariant — that is fsbinlog's own contract (C18). Proved instead: whenever the reader has delivered everything and
-  the queue is flushed, the database holds exactly the events of the binlog, in binlog order.
--/
 /-- **restart_catches_up (partial)** — after any history whose crashes left no partial record after the last complete
     event (in particular: any such crash followed by a restart), the engine is up, and once the binlog reader has
     delivered every record and the apply queue has been flushed, the write transaction holds exactly the events of the
@@ -370,6 +362,230 @@ theorem restart_catches_up_partial (w r : Bool) (l : List (Bool × Nat × Nat)) 
   have e : allRecs s = s.done := by simp [allRecs, hrest, hq]
   rw [e]
   exact ⟨h.1.i2, h.1.i3⟩
+
+/-! ### closed form of the restart (contiguous binlog) -/
+
+theorem fresh_ch (w r : Bool) (l : List (Bool × Nat × Nat)) (hl : ∀ x ∈ l, 0 < x.2.2) : Ch (fresh w r l) := ch_fresh w r l hl
+
+/-- **the model's binlog is contiguous** — after every history the records the process knows (consumed, queued and not yet
+    delivered) lie back to back from offset 0 to `len`, every one with positive length, and the committed offset, the
+    offset row of the write transaction and the in-memory offset are record boundaries. This holds for the model's own
+    writer (`writeOK`, replica `append`) and is kept by deliveries, queue flushes and crashes; that the REAL fsbinlog files
+    are laid out like this is fsbinlog's contract (C18), checked here only by the correspondence runs. -/
+theorem binlog_contiguous (w r : Bool) (l : List (Bool × Nat × Nat)) (hl : ∀ x ∈ l, 0 < x.2.2) (ops : List Op) :
+    let s := run (fresh w r l) ops
+    Chain 0 (allRecs s) ∧ total (allRecs s) = s.len ∧
+    total (upTo s.com.off s.done) = s.com.off ∧ total (upTo s.tx.off s.done) = s.tx.off ∧ total s.done = s.dbo := by
+  intro s
+  obtain ⟨_, hc⟩ := run_inv_ch ops _ (fresh_inv w r l hl) (fresh_ch w r l hl)
+  obtain ⟨c1, c2, c3, c4, c5, c6, c7⟩ := hc
+  refine ⟨?_, ?_, c6, c5, c2⟩
+  · show Chain 0 (s.done ++ flat s.aq ++ s.rest)
+    rw [List.append_assoc, chain_append, chain_append, Nat.zero_add, c2]
+    exact ⟨c1, c3, c4⟩
+  · show total (s.done ++ flat s.aq ++ s.rest) = s.len
+    rw [total_append, total_append, c2]; simpa [rpos] using c7
+
+/-- **restart_catches_up** — after ANY history (writes, commits, earlier crashes and repairs …) kill the process at any
+    moment, keeping the binlog up to any record boundary `d` between the fsynced offset and the written length
+    (`crashOK`; no partial record after it — with one the current code does not restart, `torn_tail_restart_fails`),
+    restart, let the reader re-deliver every record the database has not consumed (one per call), announce Commit(d)
+    and become ready: the engine is up, nothing is left to deliver or queued, the database (write transaction) holds
+    exactly the events of the durable binlog (every event ending at or before `d`, in binlog order), and the stored
+    offset row and the in-memory offset both equal its end `d`. -/
+theorem restart_catches_up (w r : Bool) (l : List (Bool × Nat × Nat)) (hl : ∀ x ∈ l, 0 < x.2.2) (ops : List Op) (d : Nat) :
+    let s := run (fresh w r l) ops
+    crashOK s d = true →
+    let s' := run s (Op.crash d false :: (replayOps (keptRest s d) ++ [Op.commit d, Op.ready]))
+    s'.tx.rows = evsUpTo (allRecs s) d ∧ s'.tx.off = d ∧ s'.dbo = d ∧
+    s'.rest = [] ∧ s'.aq = [] ∧ s'.closed = false ∧ s'.down = false := by
+  intro s hok s'
+  have hich : Inv s ∧ Ch s := run_inv_ch ops _ (fresh_inv w r l hl) (fresh_ch w r l hl)
+  obtain ⟨hi, hc⟩ := hich
+  have hok' := hok
+  simp only [crashOK, Bool.and_eq_true, decide_eq_true_eq] at hok'
+  have hstep : (step s (Op.crash d false)).1 = crashStep s d := by simp [step, hok]
+  have hi1 : Inv (crashStep s d) := by rw [← hstep]; exact step_inv hi _
+  have hc1 : Ch (crashStep s d) := by rw [← hstep]; exact step_ch hi hc _
+  have hA : allRecs (crashStep s d) = upTo d (allRecs s) :=
+    allRecs_crash hc d (Nat.le_trans hi.1.i7a hok'.1.1)
+  have hrd : Rd (upTo d (allRecs s)) d (crashStep s d) :=
+    ⟨hi1, hc1, rfl, ⟨rfl, rfl, rfl⟩, hA, rfl⟩
+  obtain ⟨hrd2, hrest2⟩ := replay_all (keptRest s d) _ _ (crashStep s d) hrd rfl
+  have hfin := replay_finish hrd2 hrest2
+  have hs' : s' = run (run (crashStep s d) (replayOps (keptRest s d))) [Op.commit d, Op.ready] := by
+    show run s (Op.crash d false :: (replayOps (keptRest s d) ++ [Op.commit d, Op.ready])) = _
+    rw [run, hstep, run_append]
+  rw [← hs'] at hfin
+  obtain ⟨fi, fc, foff, frest, faq, fall, flen, fcl, fdown⟩ := hfin
+  have hdbo : s'.dbo = d := by
+    have := fc.c7
+    rw [frest, faq] at this
+    simp [rpos, flat_nil, total_nil] at this
+    rw [this, flen]
+  refine ⟨?_, by rw [foff, hdbo], hdbo, frest, faq, fcl, fdown⟩
+  have e : allRecs s' = s'.done := by simp [allRecs, frest, faq, flat_nil]
+  rw [fi.1.i2, ← e, fall]
+  rfl
+
+/-- every acknowledged write is back after the restart of `restart_catches_up` (closed form, no "once caught up") -/
+theorem acked_present_after_restart (w r : Bool) (l : List (Bool × Nat × Nat)) (hl : ∀ x ∈ l, 0 < x.2.2) (ops : List Op) (d : Nat) :
+    let s := run (fresh w r l) ops
+    crashOK s d = true →
+    ∀ id ∈ s.ackedW, id ∈ (run s (Op.crash d false :: (replayOps (keptRest s d) ++ [Op.commit d, Op.ready]))).tx.rows := by
+  intro s hok id hid
+  have h := (restart_catches_up w r l hl ops d hok).1
+  rw [h]
+  have hi : Inv s := run_inv ops _ (fresh_inv w r l hl)
+  obtain ⟨rec, hr, h1, h2, h3⟩ := hi.1.ack id hid
+  have hok' := hok
+  simp only [crashOK, Bool.and_eq_true, decide_eq_true_eq] at hok'
+  exact mem_evIds.2 ⟨rec, mem_upTo.2 ⟨hr, Nat.le_trans h3 hok'.1.1⟩, h1, h2⟩
+
+/-! ### the "skip already applied bytes" branch of binlog_engine.go `apply` -/
+
+/-- **apply_skip_branch_unreachable** — `impl.apply` reads the offset row inside the write transaction (`tx.off`) and takes
+    its skip branch only if that value is larger than the in-memory offset (`dbOffset > offset`). In every reachable
+    state the offset row is at most the in-memory offset, so whenever the binlog calls Apply the guard is false: the
+    branch is dead under the engine's own invariants (the in-memory offset is loaded from that row at start and every
+    code path writes the row with a value ≤ the offset it then stores). -/
+theorem apply_skip_branch_unreachable (w r : Bool) (l : List (Bool × Nat × Nat)) (hl : ∀ x ∈ l, 0 < x.2.2) (ops : List Op) :
+    let s := run (fresh w r l) ops
+    ¬ (s.dbo < s.tx.off) := by
+  intro s
+  have h : Inv s := run_inv ops _ (fresh_inv w r l hl)
+  have := h.1.i6b
+  omega
+
+/-! ### replica mode (Apply queueing while a commit is awaited, Commit-triggered flush, Skip) -/
+
+theorem repl_step (s : St) (op : Op) : (step s op).1.repl = s.repl := by
+  have hcs : ∀ (t : St) (k : Nat), (commitStep t k).repl = t.repl := by
+    intro t k
+    unfold commitStep
+    split
+    · rfl
+    · split
+      · simp only [flushQ, foldl_flush, flushed, notify]
+      · split <;> rfl
+  cases op with
+  | doOp i ln extra k =>
+    simp only [step, doOp]
+    split
+    · rfl
+    · cases k <;> simp only
+      · simp only [doWrite]
+        split
+        · rfl
+        · split
+          · split <;> rfl
+          · rfl
+      all_goals first | rfl | (simp only [doRead]; split <;> rfl)
+  | doNow i ln extra =>
+    simp only [step, doNow]
+    split
+    · rfl
+    · split
+      · rfl
+      · split
+        · rfl
+        · have := hcs (park (writeOK s i ln extra) i (s.dbo + plen ln) false) (s.dbo + plen ln + extra)
+          split
+          · exact this
+          · exact this
+  | commit k => simp only [step]; split; rfl; exact hcs _ _
+  | tx => simp only [step, txStep]; split; rfl; split; rfl; split <;> rfl
+  | dApply n => simp only [step, deliverApply]; split; rfl; split; rfl; split <;> rfl
+  | dSkip n => simp only [step, deliverSkip]; split; rfl; split; rfl; split <;> rfl
+  | append l => simp only [step]; split <;> rfl
+  | hold b => rfl
+  | close =>
+    simp only [step, closeStep]
+    split
+    · rfl
+    · have : (if s.repl then s else commitStep s s.len).repl = s.repl := by
+        split
+        · rfl
+        · exact hcs _ _
+      have htail : ∀ t : St,
+          (if t.dbo ≤ t.ci then ({ t with com := t.tx, closed := true }, "ok") else ({ t with closed := true }, "err")).1.repl = t.repl := by
+        intro t; split <;> rfl
+      rw [htail]; exact this
+  | crash d torn => simp only [step]; split; rfl; split <;> rfl
+  | ready =>
+    simp only [step, readyStep]; split
+    · simp only [flushQ, foldl_flush, flushed]
+    · rfl
+
+theorem repl_run : ∀ (ops : List Op) (s : St), (run s ops).repl = s.repl := by
+  intro ops
+  induction ops with
+  | nil => intro s; rfl
+  | cons op t ih => intro s; rw [run, ih, repl_step]
+
+/-- **replica: db_is_prefix / readers never ahead, trace level** — an engine opened as a replica, after every history:
+    it stays a replica and never appends to the binlog itself (a write callback that returns bytes is refused and changes
+    nothing); what readers see and what the write transaction holds are the binlog prefixes their offset rows mark and
+    the committed offset is inside the prefix the binlog announced through Commit; events are parked in the apply queue
+    only while a binlog commit is awaited (`ci < dbo`), and parked events are in neither database state (they end
+    beyond both offset rows). -/
+theorem replica_db_is_prefix (w : Bool) (l : List (Bool × Nat × Nat)) (hl : ∀ x ∈ l, 0 < x.2.2) (ops : List Op) :
+    let s := run (fresh w true l) ops
+    s.repl = true ∧ (∀ id ln extra, failing s (.doOp id ln extra .ok) = true) ∧
+    s.com.rows = evsUpTo (allRecs s) s.com.off ∧ s.tx.rows = evsUpTo (allRecs s) s.tx.off ∧ s.com.off ≤ s.dur ∧
+    (∀ id ∈ s.com.rows, ∃ rec ∈ allRecs s, rec.isEv = true ∧ rec.id = id ∧ rec.eo ≤ s.dur) ∧
+    (s.q = true → s.ci < s.dbo) ∧ (∀ rec ∈ flat s.aq, s.tx.off < rec.eo ∧ s.com.off < rec.eo) := by
+  intro s
+  have hr : s.repl = true := repl_run ops _
+  have h : Inv s := run_inv ops _ (fresh_inv w true l hl)
+  have hp := db_is_prefix w true l hl ops
+  refine ⟨hr, ?_, hp.1, hp.2.1, hp.2.2.2.2.1, view_never_ahead_of_binlog w true l hl ops, h.2, ?_⟩
+  · intro id ln extra
+    simp [failing, canWrite, hr]
+  · intro rec hrec
+    have := (h.1.ql rec hrec).1
+    have := h.1.i6a
+    have := h.1.i6b
+    omega
+
+/-- replica, one Apply while a commit is awaited: the payload is parked, neither database state changes, the returned
+    offset advances by the payload length -/
+theorem replica_apply_is_parked (s : St) (n : Nat) (hb : badApply s n = false) (hr : readerOK s n = true)
+    (hq : queueCond s = true) :
+    (deliverApply s n).1.tx = s.tx ∧ (deliverApply s n).1.com = s.com ∧ (deliverApply s n).1.dbo = s.dbo ∧
+    (deliverApply s n).1.q = true ∧ (deliverApply s n).1.aq = s.aq ++ [.body (s.rest.take n)] := by
+  rw [deliverApply_eq hb hr, if_pos hq]
+  exact ⟨rfl, rfl, rfl, rfl, rfl⟩
+
+/-- replica, `Commit(k)` while events are parked: if `k` covers the engine offset the transaction is COMMITted exactly as
+    it was before the parked events (so readers see the state at offset ≤ k), then all parked payloads and skips are
+    applied in order; otherwise nothing is committed or applied and the queue stays. -/
+theorem replica_commit_flushes (s : St) (hi : Inv s) (k : Nat) (hq : s.q = true) :
+    (s.dbo ≤ k → (commitStep s k).com = s.tx ∧ (commitStep s k).q = false ∧ (commitStep s k).aq = [] ∧
+        (commitStep s k).tx.rows = s.tx.rows ++ evIds (flat s.aq) ∧ (commitStep s k).done = s.done ++ flat s.aq ∧
+        (commitStep s k).dbo = s.dbo + total (flat s.aq)) ∧
+    (k < s.dbo → (commitStep s k).com = s.com ∧ (commitStep s k).tx = s.tx ∧ (commitStep s k).q = true ∧
+        (commitStep s k).aq = s.aq) := by
+  have hci := hi.2 hq
+  constructor
+  · intro hk
+    have h1 : ¬ k < s.ci := by omega
+    have h2 : delayedCommit s k = true := by simp [delayedCommit, hq, hk]
+    unfold commitStep
+    simp only [h1, if_false, h2, if_true, flushQ, foldl_flush, flushed, notify]
+    refine ⟨trivial, trivial, trivial, ?_, trivial, trivial⟩
+    show s.tx.rows ++ itemsIds s.aq = s.tx.rows ++ evIds (flat s.aq)
+    rw [itemsIds_eq _ hi.1.qs]
+  · intro hk
+    have h2 : delayedCommit s k = false := by simp [delayedCommit, hq]; omega
+    unfold commitStep
+    split
+    · exact ⟨rfl, rfl, hq, rfl⟩
+    · by_cases hp : parkedCommit s k = true
+      · simp [parkedCommit] at hp; omega
+      · have hp' : parkedCommit s k = false := by simpa using hp
+        simp only [h2, hp', Bool.false_eq_true, if_false, notify]
+        exact ⟨trivial, trivial, hq, trivial⟩
 
 /-! ### non-vacuity: concrete histories (evaluated by the kernel) -/
 
@@ -396,6 +612,24 @@ def demoOps2 : List Op :=
   [.dSkip 24, .commit 24, .ready, .doOp 1 12 0 .ok, .commit 36, .tx, .doOp 2 12 0 .ok, .crash 48 false, .dApply 1]
 example : let s := run (fresh true false [(false, 0, 24)]) demoOps2
     s.q = true ∧ s.tx = ⟨[1], 36⟩ ∧ s.aqOff = 48 := by decide
+
+-- closed-form restart on the demo history: crash keeping the binlog up to 72, canonical replay, Commit(72), ready
+example : crashOK (run (fresh true false [(false, 0, 24)]) (demoOps.take 10)) 72 = true := by decide
+example : crashOK (run (fresh true false [(false, 0, 24)]) (demoOps.take 10)) 70 = false := by decide   -- not a record boundary
+example : replayOps (keptRest (run (fresh true false [(false, 0, 24)]) (demoOps.take 10)) 72) = [.dSkip 20] := by decide
+-- a kill while the commit timer is parked behind the binlog (ptx) is a legal crash point
+example : let s := run (fresh true false [(false, 0, 24)]) (demoOps.take 7)
+    s.ptx = true ∧ crashOK s 36 = true ∧ crashOK s 72 = true := by decide
+-- replica: payloads parked while a commit is awaited, flushed by the Commit that covers the engine offset
+def replOps : List Op :=
+  [.ready, .append [(true, 1, 12), (true, 2, 16)], .dApply 2, .append [(true, 3, 12)], .dApply 1, .append [(false, 0, 20)], .dSkip 20]
+example : let s := run (fresh false true []) replOps
+    s.q = true ∧ s.tx = ⟨[1, 2], 28⟩ ∧ s.com = ⟨[], 0⟩ ∧ s.dbo = 28 ∧ s.aqOff = 60 ∧ queueCond s = true := by decide
+example : let s := run (fresh false true []) (replOps ++ [.commit 28])
+    s.com = ⟨[1, 2], 28⟩ ∧ s.tx = ⟨[1, 2, 3], 60⟩ ∧ s.q = false ∧ s.dbo = 60 := by decide
+example : let s := run (fresh false true []) (replOps ++ [.commit 20])
+    s.com = ⟨[], 0⟩ ∧ s.tx = ⟨[1, 2], 28⟩ ∧ s.q = true := by decide
+example : failing (run (fresh false true []) replOps) (.doOp 9 12 0 .ok) = true := by decide
 
 /-! ### known finding restart-failed-torn-tail -/
 
